@@ -127,6 +127,11 @@ def run_history(case):
             fl = d[b"info"].get(b"files")
             if fl:
                 fl[0][b"attr"] = b"x"               # executable flag on a regular file (BEP 47)
+                fl[-1][b"md5sum"] = b"0123456789abcdef0123456789abcdef"
+            if b"url-list" not in d:
+                d[b"url-list"] = b"http://single.example/seed"      # BEP 19: a single string
+            if b"announce" not in d and b"announce-list" not in d and case.get("foreign_private"):
+                d[b"announce-list"] = [[b"http://only-list.example/a"], [b"udp://second.example:1/a"]]   # tiers, no announce
             raw = bencode(d)
             with open(out, "wb") as fh:
                 fh.write(raw)
